@@ -35,23 +35,23 @@ PROPS: dict[str, dict] = {
     "C05": _p("static analysis: key provenance (documented section names vs metadata keys read), enabled-gate dominance with helper implication summaries, option wiring doc->from_dict->field->read, exception-path analysis to exit 2, CLI override level coverage, carrier/normalisation rules, threshold operator table",
               "Rules K1, K3, K4, K6-K12, K14 over 20 rule classes, 16 config classes (~110 documented options), 7 override helpers and all config readers." + _COMMON, "DESIGN.md 4 C05"),
     "C06": _p("static analysis: sibling agreement of the 19 command tails, exit-constant and handler rules, renderer iteration rules, constant-bound analysis of line/column arguments, static type of file_path from mypy",
-              "Rules X1-X7 over 20 commands, 3 renderers and 49 construction sites." + _COMMON, "DESIGN.md 4 C06"),
+              "Rules X1-X8 (X8: who may write to standard output) over 20 commands, 3 renderers and 49 construction sites." + _COMMON, "DESIGN.md 4 C06"),
     "C07": _p("static analysis: typestate/instance pairing of check() and finalize() on the parallel path, codec table agreement, future-consumption shape, handler discipline of the worker",
               "Narrow claim: rules P1-P5 (P5: work items forward path, root and config unchanged); completion order and partitioning are not decided." + _COMMON, "DESIGN.md 4 C07"),
     "C08": _p("static analysis: typestate of rule state (written under check vs reset on every finalize path), finalize pairing of lint_file callers, hash-value use rule, who-may-write reachability over the call graph with positive control, metadata key provenance",
-              "Rules S1-S11 over 2 stateful rules, all lint_file callers, all hash() sites, every function reachable from the lint entry points, ~45 long-lived helper classes (accumulating attributes, content memos), all module-level names of src (run-time mutation), functools caches and the SQL of the two stores." + _COMMON, "DESIGN.md 4 C08"),
+              "Rules S1-S12 over 2 stateful rules, all lint_file callers, all hash() sites, every function reachable from the lint entry points, ~45 long-lived helper classes (accumulating attributes, content memos), all module-level names of src (run-time mutation), functools caches and the SQL of the two stores." + _COMMON, "DESIGN.md 4 C08"),
     "C09": _p("static analysis: who-may-call rule for cwd-rooted parser acquisition, path-predicate provenance (relative_to before directory-component predicates)",
               "Rules Q1-Q4 over 14 parser acquisitions and 21 path-predicate functions." + _COMMON, "DESIGN.md 4 C09"),
     "C10": _p("static analysis: sibling agreement of the library and CLI entry points over resolved orchestrator callees and their finalize behaviour",
               "Rules A1-A4 over both entry points and the five orchestrator lint methods." + _COMMON, "DESIGN.md 4 C10"),
     "C11": _p("static analysis: ValueError-escape rule over resolved callees with enumerated safe idioms, SyntaxError handler rule, frozen swallow table, unbounded-recursion walker detection, read-handler rule, regex-AST ambiguity analysis, mypy Optional diagnostics",
-              "Rules E1-E10 over every function reachable from a rule (~900), the 67 regular expressions of src (E5: ambiguity degree from the regex AST), mypy's None/Optional diagnostics (E8), the SQL insert sites of the two stores (E9) and the magic-number message builders (E10)." + _COMMON, "DESIGN.md 4 C11"),
+              "Rules E1-E11 over every function reachable from a rule (~900), the 67 regular expressions of src (E5: ambiguity degree from the regex AST), mypy's None/Optional diagnostics (E8), the SQL insert sites of the two stores (E9) and the magic-number message builders (E10)." + _COMMON, "DESIGN.md 4 C11"),
     "C12": _p("static analysis: dimension (unit) analysis of line/column values - backwards inter-procedural tracing through parameters, dataclass fields, dict keys, tuple positions and returns to parser sources",
-              "Rules B1-B7 over 49 construction sites and every call that passes a node position (B5 same-node line/column, B6 no parent line for a part, B7 record line of class-level findings); sinks whose sources cannot be followed are counted as undecided (frozen maximum), never as violations." + _COMMON, "DESIGN.md 4 C12"),
+              "Rules B1-B8 over 49 construction sites and every call that passes a node position (B5 same-node line/column, B6 no parent line for a part, B7 record line of class-level findings); sinks whose sources cannot be followed are counted as undecided (frozen maximum), never as violations." + _COMMON, "DESIGN.md 4 C12"),
     "C13": _p("static analysis: line-model def-use rule (splitlines vs parser newline model)",
-              "Narrow claim: only the line-model and lookup-arithmetic clauses (L1-L6; L6 = no tree-sitter byte offset applied to a str) of the edit-invariance property are decided; all relations between two runs over program pairs are out of reach of a static argument." + _COMMON, "DESIGN.md 4 C13"),
+              "Narrow claim: only the line-model and lookup-arithmetic clauses (L1-L7; L6 = no tree-sitter byte offset applied to a str, L7 = sibling walks / last-child picks allow for comment nodes) of the edit-invariance property are decided; all relations between two runs over program pairs are out of reach of a static argument." + _COMMON, "DESIGN.md 4 C13"),
     "C14": _p("static analysis: must-pass-through (gate dominance) on lint_file paths, who-may-call on the rule-execution chain, table agreement, walk-shape rule",
-              "Rules W1-W5 over lint_file's CFG paths, the rule-execution call chain, the exclusion tables and the os.walk loop." + _COMMON, "DESIGN.md 4 C14"),
+              "Rules W1-W6 over lint_file's CFG paths, the rule-execution call chain, the exclusion tables and the os.walk loop." + _COMMON, "DESIGN.md 4 C14"),
     "C15": _p("static analysis: constant propagation of emitted rule ids x command filter predicates (table evaluation), export/constructibility rules, language-guard dominance, section-key disjointness",
               "Rules U1-U7 over 20 commands x 37 emitted ids, 20 rule classes, the language detector and the shared parse helpers." + _COMMON, "DESIGN.md 4 C15"),
     "C16": _p("static analysis: operator table at the SRP threshold site, branch symmetry of from_dict, sibling record tables, public-method feature matrix",
